@@ -30,7 +30,7 @@ type C19Case struct {
 	CRLF     bool     `json:"crlf"`   // CR LF line ends
 }
 
-var proseWords = []string{"Grammar", "for", "the", "calculator:", "`tok`", "``x``", "é世界", "naïve", "\t", "tab\tbed", "1.", "#", "##", "* item", "> quote", "'a'", "\"s\"", "A : b ;", "<< x >>", "/* c */", "// c", "$", "|", "\r", "—", "𝔘", "~~~", "`"}
+var proseWords = []string{"Grammar", "for", "the", "calculator:", "`tok`", "``x``", "é世界", "naïve", "\t", "tab\tbed", "1.", "#", "##", "* item", "> quote", "'a'", "\"s\"", "A : b ;", "<< x >>", "/* c */", "// c", "$", "|", "\r", "—", "𝔘", "~~~", "`", "a\u00a0b", "\u3000", "\f", "\v", "x\u0085y", "\u2028", "``", "`code"}
 
 func genProse(t *rapid.T) (string, bool) {
 	n := rapid.IntRange(0, 4).Draw(t, "proseLines")
